@@ -45,7 +45,7 @@ class C01(Prop):
     assumptions = ["as C07"]
 
     def cases(self, rng, tier):
-        n = 200 if tier == "quick" else 4000
+        n = 200 if tier == "quick" else 2500
         for i in range(n):
             g = ac.Gen(random.Random(rng.getrandbits(48)), full=True, depth=rng.choice([1, 2, 2, 3]),
                        carried=rng.choice([0.0, 0.0, 0.0, 0.5]))
@@ -57,7 +57,7 @@ class C01(Prop):
                 g.focus = True
                 g.sticky = rng.choice([0.5, 0.8])
             yield {"kind": "dedup", "src": g.program(), "xseed": rng.getrandbits(32)}
-        for i in range(100 if tier == "quick" else 3000):
+        for i in range(100 if tier == "quick" else 1500):
             # small single-accelerator programs over three configurations (alternating / restoring inside a loop)
             yield {"kind": "dedup", "src": ac.redundancy_program(random.Random(rng.getrandbits(48))), "xseed": rng.getrandbits(32)}
 
